@@ -1189,7 +1189,6 @@ func main() {
 		rep(`"kdf":"scrypt"`, `"kdf":"pbkdf2"`, "kdf-swapped")
 		rep(`"kdf":"pbkdf2"`, `"kdf":"scrypt"`, "kdf-swapped")
 		rep(`"kdf":"`+b.kp.kdf+`"`, `"kdf":"argon2"`, "kdf-unknown")
-		rep(`"id":"`, `"ID":"`, "id-uppercase-name")
 		rep(`"id":"`+d.id+`"`, `"id":null`, "id-null")
 		rep(`"id":"`+d.id+`",`, ``, "id-missing")
 		rep(`"id":"`+d.id+`"`, `"id":"`+strings.ToUpper(d.id)+`"`, "id-uppercase")
